@@ -512,15 +512,21 @@ def r07_8(ctx, rr):
                         c = F.callee(n)
                         if c:
                             helpers.setdefault(strip_generics(c), set()).add(pos)
-    if not helpers:
-        raise AnchorMissing("set_up_graphs passes max_shard to no helper")
+    # the bodies to scan: the helpers that receive max_shard, and set_up_graphs itself (a helper that the reference
+    # tree does not know is analysed where it is inlined, with max_shard substituted for its parameter)
+    scan = []
     for path, poss in sorted(helpers.items()):
         hb = [b for b in F.fns() if strip_generics(b.path) == path]
-        if not hb:
-            continue
-        hb = hb[0]
-        for pos in sorted(poss):
-            pid = hb.params[pos]["id"]
+        if hb:
+            for pos in sorted(poss):
+                scan.append((hb[0], hb[0].params[pos]["id"], hb[0].params[pos].get("name")))
+    for b in sg:
+        if len(b.params) >= 3 and any(isinstance(x, dict) and x.get("inlined") for x in walk(b.body)):
+            scan.append((b, b.params[2]["id"], b.params[2].get("name")))
+    if not scan:
+        raise AnchorMissing("set_up_graphs passes max_shard to no helper")
+    for hb, pid, pname in scan:
+        if True:
             bad = []
             for n in walk(hb.body):
                 if n.get("k") == "If" and diverges(F, n["th"]):
@@ -540,7 +546,7 @@ def r07_8(ctx, rr):
                             bad.append(n)
             rr.instances += 1
             key = "%s:total-in-shard-size" % short_fn(hb.key)
-            rr.ob(not bad, key=key, sample={"helper": hb.key, "argument": hb.params[pos].get("name")})
+            rr.ob(not bad, key=key, sample={"helper": hb.key, "argument": pname})
             if bad:
                 rr.violate(key, "%s, applied by set_up_graphs to the size of the largest shard, asserts an upper bound on that argument (`%s`): the largest shard is not bounded at that point (it exceeds the target size for key sets just below a sharding threshold, and by any amount in attempts later discarded as unbalanced), so the build panics instead of returning a function" % (hb.key, show(F, bad[0]["c"])[:80]), F.loc(bad[0]))
 
